@@ -308,6 +308,19 @@ func (h *c61hist) add(t time.Time) {
 	}
 	h.logf("add t=%s vals=%v", c61ts(t), vals)
 	h.ts.AddWithTime(o, t)
+	if h.rng.IntN(3) == 0 {
+		// The caller keeps using the value it passed: the series must hold its own copy
+		// ("AddWithTime records an observation"), so neither adding to it nor clearing it may
+		// change what the series reports.
+		if h.rng.IntN(2) == 0 {
+			o.Clear()
+		} else {
+			o2, _ := c61observe(h.kind, h.values())
+			o.Add(o2)
+			o.Add(o2)
+		}
+		h.event("caller_mutated_observable_after_add", 1)
+	}
 	h.obs = append(h.obs, rec)
 	h.total.add(ref)
 	if t.After(h.cur) {
@@ -345,10 +358,39 @@ func (h *c61hist) report(what, call string, got, want, wantAlt c61val) {
 	h.c.Violation(what, "%s/%s %s = %s, observations added in that range = %s. history: %v", h.series, h.kind, call, c61show(h.kind, got), c61showRef(h.kind, want), h.log)
 }
 
+// unalignedQueries issues a few read-only queries whose ends cut through buckets. Their
+// results are approximate by contract and are not judged; they must not change what later
+// bucket-aligned queries report.
+func (h *c61hist) unalignedQueries() {
+	levels := h.ts.VerifLevels()
+	if levels[0].End.IsZero() {
+		return
+	}
+	for i, n := 0, 1+h.rng.IntN(3); i < n; i++ {
+		lv := levels[h.rng.IntN(len(levels))]
+		span := lv.Size * time.Duration(lv.NumBuckets)
+		a := lv.End.Add(-time.Duration(h.rng.Int64N(int64(span))))
+		b := a.Add(time.Duration(1 + h.rng.Int64N(int64(lv.End.Sub(a))+1)))
+		switch h.rng.IntN(3) {
+		case 0:
+			h.ts.Range(a, b)
+		case 1:
+			h.ts.ComputeRange(a, b, 1+h.rng.IntN(7))
+		default:
+			res := h.ts.Range(a, b)
+			res.Clear() // the result belongs to the caller
+		}
+		h.event("unaligned_readonly_queries", 1)
+	}
+}
+
 func (h *c61hist) rangeCheck() {
 	levels := h.ts.VerifLevels()
 	if levels[0].End.IsZero() {
 		return
+	}
+	if h.rng.IntN(3) == 0 {
+		h.unalignedQueries()
 	}
 	L := h.rng.IntN(len(levels))
 	if h.rng.IntN(3) == 0 {
@@ -574,6 +616,8 @@ func TestVerif_C61(t *testing.T) {
 	r.Require("adds_into_pending_bucket", 2000)
 	r.Require("adds_older_than_every_window", 300)
 	r.Require("latest_advanced_levels", 500)
+	r.Require("unaligned_readonly_queries", 1000)
+	r.Require("caller_mutated_observable_after_add", 1000)
 	r.Require("adds_behind_advanced_levels", 300) // pendingTime < t <= levels[0].end-1s: the history behind key add-behind-advanced-levels-filed-in-newest-bucket
 	r.Require("level0_window_jumped_over", 2000)
 	r.Require("level9_window_jumped_over", 50)
